@@ -555,6 +555,7 @@ free piece:
 // verification hook: the slot size decision of write_piece, without I/O.
 #[cfg(feature = "verif_hooks")]
 pub(crate) fn verif_sweep_value_slot_sizes(
+    min_len: usize,
     max_len: usize,
     func: &mut dyn FnMut(usize, u32, u32, u32),
 ) {
@@ -566,7 +567,7 @@ pub(crate) fn verif_sweep_value_slot_sizes(
             piece_mgr.roundup(ValuePieceSize::new(encorded_piece_len + piece_len));
         let len = piece.value.len();
         func(len, encorded_piece_len, piece_len, new_piece_size.as_value());
-        if len == 0 {
+        if len <= min_len {
             break;
         }
         piece.value.truncate(len - 1);
